@@ -398,7 +398,16 @@ def _lemma_placeholder_lang():
     import ast as _ast
     tree = _ast.parse(src)
     env = {"re": re}
-    want = {"CSS_PLACEHOLDER_NAME", "JS_PLACEHOLDER_NAME", "MAYBE_COMP_ID", "MAYBE_COMP_CSS_ID", "PLACEHOLDER_REGEX"}
+    # the module constants PLACEHOLDER_REGEX is built from, whatever they are called: its transitive dependencies among the
+    # top-level single-name assignments, evaluated in source order
+    assigns = {st.targets[0].id: st for st in tree.body if isinstance(st, _ast.Assign) and len(st.targets) == 1 and isinstance(st.targets[0], _ast.Name)}
+    want, todo = set(), ["PLACEHOLDER_REGEX"]
+    while todo:
+        nm = todo.pop()
+        if nm in want or nm not in assigns:
+            continue
+        want.add(nm)
+        todo.extend(n.id for n in _ast.walk(assigns[nm].value) if isinstance(n, _ast.Name))
     for st in tree.body:
         if isinstance(st, _ast.Assign) and len(st.targets) == 1 and isinstance(st.targets[0], _ast.Name) and st.targets[0].id in want:
             exec(compile(_ast.Module([st], []), "<consts>", "exec"), env)
